@@ -39,7 +39,7 @@ theorem expand_is_product (q : Quirks) (cfg : Cfg) (line : List Seg)
 
 example : ∃ cfg line, (∀ it ∈ itemsOf line, (∃ k, it.sel = .offset k) → (Cfg.values cfg it.name).Nodup)
     ∧ expandGraph ⟨false, false, false⟩ cfg line
-        = some ["foo_m-32768=>bar_m0", "foo_m0=>bar_m1", "foo_m1=>bar_m2"] :=
+        = some ["foo_m" ++ toString Generated.Params.removeSentinel ++ "=>bar_m0", "foo_m0=>bar_m1", "foo_m1=>bar_m2"] :=
   ⟨[⟨"m", [.int 0, .int 1, .int 2], [.lit "_m", .field "m" .s]⟩],
    [.lit "foo", .group [⟨"m", .offset (-1)⟩], .lit "=>bar", .group [⟨"m", .plain⟩]],
    by
@@ -283,6 +283,32 @@ def fixed_selects_member_full (member : Bool) : Prop :=
   ∀ (vs : List Val) (raw : String) (v : Val), fixedVal member vs raw = some v →
     fixedSubst member vs raw = some v ∧ v ∈ vs ∧ Matches raw v
 
+/-- for both behaviours: the value `_expand_graph` substitutes for `p=raw` is the one `expand`
+checked (so a line passes the check with exactly the values that are then substituted) -/
+theorem fixed_subst_eq_checked (member : Bool) (vs : List Val) (raw : String) (v : Val)
+    (h : fixedVal member vs raw = some v) : fixedSubst member vs raw = some v := by
+  cases member with
+  | true => simpa [fixedVal, fixedSubst] using h
+  | false =>
+    simp only [fixedVal, Bool.false_eq_true, if_false] at h
+    simp only [fixedSubst, Bool.false_eq_true, if_false]
+    unfold fixedOld at h
+    cases hn : pyInt? raw with
+    | none =>
+      simp only [hn] at h
+      split at h
+      · exact h
+      · cases h
+    | some n =>
+      simp only [hn] at h
+      split at h
+      · exact h
+      · split at h
+        · exact h
+        · cases h
+
+example : fixedVal false [.int 0, .int 1] "01" = some (.int 1) := by decide
+
 /-- the repaired code (`findings/C34-fix-1.diff`) satisfies it, and accepts every `raw` that names a member -/
 theorem select_member_spec :
     fixed_selects_member_full true ∧
@@ -297,6 +323,33 @@ theorem select_member_spec :
 
 example : fixedVal true [.str "072", .str "a", .str "5"] "072" = some (.str "072") := by decide
 example : fixedVal true [.int 0, .int 1, .int 2] "01" = some (.int 1) := by decide
+
+/-- which lines the repaired `GraphExpander.expand` accepts: every parameter used is defined with a
+non-empty value list and every `p=raw` names a member -/
+theorem check_iff_valid (q : Quirks) (hq : q.selMemberGraph = true) (cfg : Cfg) (it : Item) :
+    checkItemGraph q cfg it = true ↔
+      cfg.values it.name ≠ [] ∧ ∀ raw, it.sel = .fixed raw → ∃ v ∈ cfg.values it.name, Matches raw v := by
+  unfold checkItemGraph
+  cases hv : cfg.values it.name with
+  | nil => simp
+  | cons a r =>
+    cases hs : it.sel with
+    | plain => simp
+    | offset k => simp
+    | fixed raw =>
+      simp only [hq, fixedVal, if_true, ne_eq, reduceCtorEq, not_false_eq_true, true_and, Sel.fixed.injEq]
+      constructor
+      · intro h raw' e
+        subst e
+        cases hsel : selectMember (a :: r) raw with
+        | none => simp [hsel] at h
+        | some v =>
+          have := selectMember_sound _ _ _ hsel
+          exact ⟨v, this.1, this.2⟩
+      · intro h
+        exact selectMember_complete _ _ (h raw rfl)
+
+example : checkItemGraph ⟨true, true, true⟩ [⟨"m", [.str "072", .str "a"], []⟩] ⟨"m", .fixed "72"⟩ = true := by decide
 
 /-- the current code agrees with the repaired one when the value list holds integers only (as cylc
 builds it for `m = 0..3`) or when `raw` is not a number -/
@@ -336,6 +389,9 @@ nodes stay, in order -/
 theorem drop_all_spec {α} (flag : α → Bool) (ts : List (String × α)) :
     (dropNodes ⟨false, false, true⟩ flag ts).map (·.2) = (ts.filter fun t => !flag t.2).map (·.2) := by
   simp [dropNodes, dropAll_nodes]
+
+example : dropNodes ⟨false, false, true⟩ id [("", true), ("&", true), ("|", false), ("&", true), ("&", false)]
+    = [("", false), ("&", false)] := by decide
 
 /-- the full statement for the current parser -/
 def drop_once_full : Prop :=
@@ -394,7 +450,7 @@ theorem sentinel_format_partial (c : Conv) (h : match c with | .s => True | .d _
     rcases w with _|_|_|_|_|_|_|w
     all_goals first | (cases plus <;> decide) | omega
 
-example : fmtVal (.d false 3) sentinel = some "-32768" := by decide
+example : fmtVal (.d false 3) sentinel = some (toString Generated.Params.removeSentinel) := by decide
 
 /-- … wider zero padding (the default template of an 8-digit integer parameter) does not, and the
 node is then not recognised -/
@@ -404,8 +460,8 @@ theorem sentinel_wide_counterexample : ¬ sentinel_format_full := by
   revert this
   decide
 
-example : isRemoveToken "foo_m-32768" = true := by decide
-example : isRemoveToken "foo_date-0032768" = false := by decide
+example : isRemoveToken ("foo_m" ++ toString Generated.Params.removeSentinel) = true := by decide
+example : isRemoveToken ("foo_date" ++ (fmtVal (.d false 8) sentinel).getD "") = false := by decide
 
 /-! ### runtime headings -/
 
